@@ -137,7 +137,9 @@ class StreamReversed(StreamWrapper):
     ) -> None:
         super().__init__(
             substream,
-            size,
+            # a reversed view is addressed from its END: a negative ("unknown") size has
+            # no meaning here and would make every read succeed forever
+            max(size, 0),
             position=position,
             buffer_length=buffer_length
         )
